@@ -590,3 +590,13 @@ PROPS["C01"] = PROPS["C01"] + [_msg_rt(k, "thorough") for k in _MSG_KINDS + ["un
 # send_request while the head deadline is overdue (late controller): C12 refusal is silent and exact, C05/C11 bookkeeping unchanged
 PROPS["C11"] = PROPS["C11"] + [_G_SEND[11]]
 PROPS["C05"] = PROPS["C05"] + [_G_SEND[10]]
+
+# what the validating decoder hands to the MAC / CRC primitives (whole decode, recording stubs)
+TEXTREC = "<MessageIntegrity as Verifiable>::verify -> mi_verify_rec and Fingerprint::validate -> fp_validate_rec (recording stubs: length of the text, its bytes 2..4 and the byte at one symbolic index; arbitrary verdict). The input selection itself (raw::get_input_text) is the real code."
+_C10V = [H("stunrs", CTX + n, tier=t, timeout=1800, mem_gb=12, covers=None, stubs=[NOFMT, TID, REGSMALL, BUILDREC, TEXTREC], playback=False,
+           bounds="60-byte message MESSAGE-INTEGRITY | unknown 0x7F02 (3-byte value + 1 padding byte) | FINGERPRINT; framing and message type concrete, all values / transaction id symbolic, both verdicts symbolic; decoder: with_validation%s" % o,
+           funcs=["MessageDecoder::decode", "context::validate_attribute", "raw::get_input_text", "context::ignore_attribute", "RawAttributesIter::next"])
+         for (n, t, o) in (("c10v_mi_ignored_fp", "quick", ""), ("c10v_mi_kept_fp_not_ignore", "thorough", " + not_ignore"))]
+PROPS["C10"] = PROPS["C10"] + _C10V
+PROPS["C04"] = PROPS["C04"] + _C10V
+PROPS["C09"] = PROPS["C09"] + [_C10V[0]]
